@@ -667,9 +667,10 @@ func init() {
 	})
 	Register(&Rule{
 		ID: "PREFIXIDENT", Props: []string{"C03", "C11"}, Min: 3,
-		Doc: "NodeURLPrefix is an injective function of the store's identity: it is assembled from the full location fields (or the receiver's " +
-			"address) by concatenation/fmt verbs without precision only; no Base/last-element/trim/slice/case-folding step lies between the " +
-			"location and the prefix (two distinct stores sharing a NodeCache must never share a prefix, or a flush to one is skipped).",
+		Doc: "NodeURLPrefix is an injective function of the store's identity: it is assembled from every constructor parameter that selects where " +
+			"objects live, or from a process-unique id (never a memory address), only by allow-listed injective operations: concatenation and full-width " +
+			"fmt verbs with a non-empty constant separator between any two variable components, strconv formatters, URL/hex escaping. The separator " +
+			"argument relies on the component that follows a separator not containing it where that matters (S3 bucket names cannot contain '/').",
 		Run: runPREFIXIDENT,
 	})
 }
@@ -892,6 +893,16 @@ func (pc *prefixCheck) value(v ssa.Value, ri *recvInfo, d int) {
 		return
 	case *ssa.BinOp:
 		if x.Op == token.ADD && isStringType(x.Type()) {
+			// two variable components must be kept apart by constant text, or
+			// ("ab","c") and ("a","bc") give the same identity
+			leaves := concatLeaves(x)
+			for i := 0; i+1 < len(leaves); i++ {
+				_, c1 := constString(leaves[i])
+				_, c2 := constString(leaves[i+1])
+				if !c1 && !c2 {
+					pc.bad = append(pc.bad, fmt.Sprintf("the concatenation of %s and %s without a constant separator between them (different pairs of components give the same text)", descValue(leaves[i]), descValue(leaves[i+1])))
+				}
+			}
 			pc.value(x.X, ri, d+1)
 			pc.value(x.Y, ri, d+1)
 			return
@@ -985,6 +996,9 @@ func (pc *prefixCheck) value(v ssa.Value, ri *recvInfo, d int) {
 				}
 				if strings.Contains(strings.ReplaceAll(format, "%%", ""), "%p") {
 					pc.addr = append(pc.addr, "verb %p (an address)")
+				}
+				if adjacentVerbs(format) {
+					pc.bad = append(pc.bad, "fmt.Sprintf with two verbs and no constant text between them (different pairs of components give the same text)")
 				}
 				rest = args[1:]
 			}
@@ -1812,4 +1826,247 @@ func prefixCoversCtorParams(c *Ctx, b backendImpl, pfx *ssa.Function, reached ma
 				fmt.Sprintf("the identity %s reports does not depend on parameter %s of %s: two stores that differ only in it (another service, bucket, key prefix or directory) share the keys of a common NodeCache, and a node flushed to one is never written to the other", ir.FuncName(pfx), p.Name(), ir.FuncName(fn)))
 		}
 	}
+}
+
+// adjacentVerbs: the format has two verbs with no literal text between them.
+func adjacentVerbs(format string) bool {
+	prevVerb := false
+	for i := 0; i < len(format); i++ {
+		if format[i] != '%' {
+			prevVerb = false
+			continue
+		}
+		if i+1 < len(format) && format[i+1] == '%' {
+			i++
+			prevVerb = false // a literal percent sign
+			continue
+		}
+		if prevVerb {
+			return true
+		}
+		i++ // the verb letter (flags/width are rejected elsewhere)
+		prevVerb = true
+	}
+	return false
+}
+
+// ===========================================================================
+// STOREWRITES
+
+func init() {
+	Register(&Rule{
+		ID: "STOREWRITES", Props: []string{"C18", "C03"}, Min: 3,
+		Doc: "in every backend's Store, each feasible path to a success (nil error) return has performed the backend's write: the PutObject " +
+			"request (S3), the insert into the receiver's map (in-memory), the delegated Store (wrapper); for the file store the temp+rename " +
+			"sequence or the Stat-of-the-final-path shortcut is ATOMICFILE's clause. No success is reported on the strength of a memo or other " +
+			"state that does not belong to this store; package-level mutable state that Load/Store consult is reported by itself.",
+		Run: runSTOREWRITES,
+	})
+}
+
+// storeWriteEvent: ins (in frame fr) is the write of the backend.
+func storeWriteEvent(c *Ctx, ins ssa.Instruction, fr *frame) string {
+	switch x := ins.(type) {
+	case *ssa.MapUpdate:
+		if _, isSlice := x.Value.Type().Underlying().(*types.Slice); isSlice {
+			if f, ok := receiverState(x.Map, fr); ok {
+				return "insert into " + f
+			}
+		}
+	case *ssa.Call:
+		if fr.child(x) != nil {
+			return ""
+		}
+		for _, a := range x.Call.Args {
+			if namedFrom(a.Type(), awsS3Pkg, "PutObjectInput") && isPointer(a.Type()) {
+				return callName(x)
+			}
+		}
+		if x.Call.IsInvoke() && x.Call.Method.Name() == "Store" {
+			if it := persistIface(c); it != nil && types.Implements(x.Call.Value.Type(), it) {
+				return "Store of the wrapped store"
+			}
+		}
+		if staticID(x) == "os.Rename" {
+			return "os.Rename"
+		}
+	}
+	return ""
+}
+
+// storeWritesFunc checks the function of frame fr and returns the name of the
+// write it (or a helper) performs ("" if none) and whether all its success
+// returns are preceded by it.
+func storeWritesFunc(c *Ctx, fr *frame, done map[*frame]string) (event string, sound bool) {
+	P := c.P
+	fn := fr.fn
+	if ev, ok := done[fr]; ok {
+		return ev, true
+	}
+	done[fr] = ""
+	events := map[ssa.Instruction]string{}
+	for _, b := range fn.Blocks {
+		if b == fn.Recover {
+			continue
+		}
+		for _, ins := range b.Instrs {
+			if ev := storeWriteEvent(c, ins, fr); ev != "" {
+				events[ins] = ev
+				event = ev
+			}
+			if call, ok := ins.(*ssa.Call); ok {
+				if k := fr.child(call); k != nil {
+					if ev, _ := storeWritesFunc(c, k, done); ev != "" {
+						events[ins] = ev + " (in " + k.fn.Name() + ")"
+						event = ev
+					}
+				}
+			}
+		}
+	}
+	done[fr] = event
+	if event == "" {
+		return "", true
+	}
+	ei := ir.ErrorResultIndex(fn.Signature)
+	bad := map[*ssa.Return]string{}
+	var order, okRets []*ssa.Return
+	seenOK := map[*ssa.Return]bool{}
+	w := &pwalker{fn: fn}
+	w.onInstr = func(st *pstate, ins ssa.Instruction) {
+		if _, ok := events[ins]; ok {
+			st.aux = "W"
+		}
+	}
+	w.onReturn = func(st *pstate, r *ssa.Return) {
+		if ei >= 0 && ei < len(r.Results) && nilness(st, r.Results[ei]) == triYes {
+			return
+		}
+		if st.aux == "W" {
+			if !seenOK[r] {
+				seenOK[r] = true
+				okRets = append(okRets, r)
+			}
+			return
+		}
+		if _, seen := bad[r]; !seen {
+			bad[r] = st.pathString()
+			order = append(order, r)
+		}
+	}
+	w.run()
+	if w.overflow {
+		c.Undecided(fn, P.Pos(fn.Pos()), "paths", "path exploration exceeded its bound")
+		return event, false
+	}
+	for _, r := range order {
+		c.Violation(fn, P.InstrPos(r), "success return without "+event,
+			fmt.Sprintf("%s can report success on a path (%s) on which it has not performed its write (%s): a memo, a flag or state that does not belong to this store decides that the node is already there, so a node is reported stored in a store that does not hold it", ir.FuncName(fn), bad[r], event), bad[r])
+	}
+	for _, r := range okRets {
+		if _, isBad := bad[r]; !isBad {
+			c.OK(P.InstrPos(r), "success return of "+ir.FuncName(fn), "every feasible path to it performs "+event, false)
+		}
+	}
+	return event, len(order) == 0
+}
+
+func runSTOREWRITES(c *Ctx) {
+	P := c.P
+	impls := backendImpls(c, backendPkgs...)
+	for _, b := range impls {
+		if b.pkg == ir.FilePath {
+			c.OK(P.Pos(b.store.Pos()), "Store of "+b.String(), "the write before success (temp+sync+close+rename, or Stat of the final path) is decided by ATOMICFILE", true)
+			continue
+		}
+		ev, _ := storeWritesFunc(c, rootFrame(P, b.store), map[*frame]string{})
+		if ev == "" {
+			c.Undecided(b.store, P.Pos(b.store.Pos()), "no write recognised", "Store performs no PutObject request, map insert into the receiver's state or delegated Store that the rule recognises")
+		}
+	}
+	// package-level mutable state consulted by Load/Store
+	reach := map[*ssa.Function]bool{}
+	for _, fn := range backendFuncs(c, impls) {
+		reach[fn] = true
+	}
+	seen := map[*ssa.Global]bool{}
+	for _, fn := range c.P.Funcs {
+		if !reach[fn] {
+			continue
+		}
+		for _, blk := range fn.Blocks {
+			for _, ins := range blk.Instrs {
+				for _, op := range ins.Operands(nil) {
+					if op == nil || *op == nil {
+						continue
+					}
+					g, ok := (*op).(*ssa.Global)
+					if !ok || seen[g] || g.Pkg == nil || !isOwn(c.P, fn) || g.Pkg != fn.Pkg {
+						continue
+					}
+					seen[g] = true
+					if why := mutableGlobal(c, g); why != "" {
+						c.Violation(fn, P.InstrPos(ins), "package-level state "+g.Name()+" used by a backend",
+							fmt.Sprintf("%s consults package-level variable %s, which is %s: it is shared by every store of the process (other buckets, directories, instances), so what one store did changes what another reports", ir.FuncName(fn), g.Name(), why))
+					} else {
+						c.OK(P.InstrPos(ins), "package-level "+g.Name()+" in "+ir.FuncName(fn), "never written after initialisation", true)
+					}
+				}
+			}
+		}
+	}
+}
+
+// mutableGlobal: g is state that changes after package initialisation.
+func mutableGlobal(c *Ctx, g *ssa.Global) string {
+	elem := g.Type().Underlying().(*types.Pointer).Elem()
+	if n, ok := types.Unalias(elem).(*types.Named); ok && n.Obj().Pkg() != nil {
+		switch n.Obj().Pkg().Path() {
+		case "sync", "sync/atomic":
+			if n.Obj().Name() != "Pool" && n.Obj().Name() != "Once" {
+				return "a " + n.Obj().Pkg().Name() + "." + n.Obj().Name() + " (mutable by construction)"
+			}
+		}
+	}
+	for _, fn := range c.P.Funcs {
+		for _, blk := range fn.Blocks {
+			for _, ins := range blk.Instrs {
+				switch x := ins.(type) {
+				case *ssa.Store:
+					if x.Addr == ssa.Value(g) {
+						return "assigned by " + ir.FuncName(fn)
+					}
+					// store through an element/field address derived from the global
+					if root := addrRoot(x.Addr); root == ssa.Value(g) {
+						return "modified by " + ir.FuncName(fn)
+					}
+				case *ssa.MapUpdate:
+					if u, ok := x.Map.(*ssa.UnOp); ok && u.X == ssa.Value(g) {
+						return "a map updated by " + ir.FuncName(fn)
+					}
+				}
+			}
+		}
+	}
+	return ""
+}
+
+// addrRoot follows FieldAddr/IndexAddr (and loads of slices/pointers) to the variable an address lies in.
+func addrRoot(v ssa.Value) ssa.Value {
+	for i := 0; i < 8; i++ {
+		switch x := v.(type) {
+		case *ssa.FieldAddr:
+			v = x.X
+		case *ssa.IndexAddr:
+			v = x.X
+		case *ssa.UnOp:
+			if x.Op != token.MUL {
+				return v
+			}
+			v = x.X
+		default:
+			return v
+		}
+	}
+	return v
 }
